@@ -75,14 +75,15 @@ func (s *Store) compactMaybe(higher Snapshot,
 	var sizeBefore, sizeAfter int64
 
 	{
-		// The segments might all belong to child collections.
-		mref := footer.mmapRefAny()
-		if mref != nil && mref.fref != nil {
+		// Not through the segments: they might all belong to child
+		// collections, or there might be none at all.
+		fref := footer.fileRef()
+		if fref != nil {
 			var finfo os.FileInfo
 			if partialCompactStart == 0 {
-				finfo, err = s.removeFileOnClose(mref.fref)
+				finfo, err = s.removeFileOnClose(fref)
 			} else {
-				finfo, err = mref.fref.file.Stat()
+				finfo, err = fref.file.Stat()
 			}
 			if err == nil && len(finfo.Name()) > 0 {
 				sizeBefore = finfo.Size() // Fetch old file size.
